@@ -73,6 +73,11 @@ def callable_name(func: Callable[..., Any]) -> str:
     if isinstance(func, partial):
         func = func.func
 
+    # Callable objects (instances of classes that define __call__) have no qualified name
+    # of their own, so use that of their class
+    if not hasattr(func, "__qualname__"):
+        func = type(func)
+
     if func.__module__ == "builtins":
         return func.__name__
     else:
